@@ -43,7 +43,9 @@ def configuration(cfg, extra=()):
     cap = LogCapture()
     logger = S.verbose_linalg.logger
     old_level = logger.level
-    logger.addHandler(cap)
+    # (the library's own StreamHandler would copy every line to stderr: silenced while the capture is installed)
+    old_handlers = list(logger.handlers)
+    logger.handlers = [cap]
     logger.setLevel(logging.DEBUG)
     with contextlib.ExitStack() as st:
         st.enter_context(S.max_cholesky_size(cfg["max_chol"]))
@@ -62,7 +64,7 @@ def configuration(cfg, extra=()):
         try:
             yield cap.lines
         finally:
-            logger.removeHandler(cap)
+            logger.handlers = old_handlers
             logger.setLevel(old_level)
 
 
